@@ -1,6 +1,6 @@
 (* Properties_C10.v — C10: arranging local symbols partitions the table, keeps
    the same symbols, and its swap log keeps every symbol index on target. *)
-From ElfioV Require Import Bytes Mem Stream SectionData Strings Elfio Table Accessors Arrange_proofs.
+From ElfioV Require Import Bytes Mem Stream SectionData SectionData_proofs Strings Elfio Table Accessors Arrange_proofs Reloc_proofs Reloc_swap Arrange_reloc.
 From Coq Require Import Permutation.
 Local Open Scope N_scope.
 
@@ -10,7 +10,9 @@ Local Open Scope N_scope.
    syms; the null symbol stays first; every symbol at 1..r-1 is local and every
    symbol from r on is not; the section's info field is r; and looking a symbol
    index q up after applying the logged swaps (what the callback forwards to a
-   relocation table) finds the symbol that was at q before. *)
+   relocation table) finds the symbol that was at q before; every logged swap
+   exchanges two positions 1 <= i < j inside the table; nothing but that one
+   section of the object changes. *)
 Theorem C10_arrange_partitions :
   forall junk el symsec el1 s s1 c e (syms : list sym) tl,
     let esz := layout_sz (sym_layout c) in
@@ -26,7 +28,8 @@ Theorem C10_arrange_partitions :
       1 <= r /\ r <= lenN syms /\
       (forall k x, 1 <= k -> k < r -> nth_optN syms' k = Some x -> sym_is_local x = true) /\
       (forall k x, r <= k -> nth_optN syms' k = Some x -> sym_is_local x = false) /\
-      (forall q, nth_optN syms' (retarget log q) = nth_optN syms q).
+      (forall q, nth_optN syms' (retarget log q) = nth_optN syms q) /\
+      swaps_in (lenN syms) log /\ el2 = upd_sec el1 symsec s2.
 Proof. exact arrange_local_symbols_correct. Qed.
 Print Assumptions C10_arrange_partitions.
 
@@ -42,9 +45,41 @@ Theorem C10_loop_partitions :
       1 <= r /\ r <= lenN syms /\
       (forall k x, 1 <= k -> k < r -> nth_optN syms' k = Some x -> sym_is_local x = true) /\
       (forall k x, r <= k -> nth_optN syms' k = Some x -> sym_is_local x = false) /\
-      (forall q, nth_optN syms' (retarget log q) = nth_optN syms q).
+      (forall q, nth_optN syms' (retarget log q) = nth_optN syms q) /\
+      swaps_in (lenN syms) log.
 Proof. exact arrange_symbols_correct. Qed.
 Print Assumptions C10_loop_partitions.
+
+(* The swap log does its job: arrange the symbol table, then hand every logged swap to swap_symbols of a
+   relocation section (this is what the callback argument of arrange_local_symbols is for, and what the
+   script operation OpArrange runs: [apply_log] is that fold). For any symbol table and any REL/RELA table
+   of either class and byte order: both calls succeed; the relocation table afterwards is the old one with
+   only the symbol indices changed (offset, type, addend of every entry as before, same size), and the
+   symbol an entry's index now selects in the arranged table is the symbol its old index selected in the
+   old table. Domain: the symbol count fits the width of the packed symbol index (2^24 / 2^32). *)
+Theorem C10_relocations_follow_their_symbols :
+  forall junk el symsec relsec el1 s s1 c e (syms : list sym) tl rs is_rela (es : list rel_entry),
+    let esz := layout_sz (sym_layout c) in
+    let tb := fun l => concat (map (enc_sym c e) l) ++ tl in
+    sec_data junk el symsec = Ok (el1, Some (tb syms), s) ->
+    acls el1 = c -> sh_entsize s = esz -> get_symbols_num el1 s = lenN syms ->
+    get_sec el1 symsec = Some s1 ->
+    1 <= lenN syms -> lenN syms * esz < 2 ^ 64 -> syms_fit c (lenN syms) ->
+    relsec <> symsec -> get_sec el1 relsec = Some rs -> el_enc el1 = e ->
+    Inv rs -> s_cls rs = c -> contents rs = concat (map (rel_enc c e is_rela) es) ->
+    sh_type rs = (if is_rela then SHT_RELA else SHT_REL) -> sh_entsize rs = rel_esz c is_rela ->
+    sh_size rs < size_bound c -> lenN es < 2 ^ 32 -> Forall (rel_fits c) es ->
+    exists el2 r log s2 syms' rs',
+      arrange_local_symbols junk el symsec = Ok (el2, r, log) /\
+      apply_log junk relsec log (Ok el2) = Ok (upd_sec el2 relsec rs') /\
+      get_sec el2 symsec = Some s2 /\ s_data s2 = Some (tb syms') /\ Permutation syms' syms /\
+      Inv rs' /\ contents rs' = concat (map (rel_enc c e is_rela) (map (retarget_entry log) es)) /\
+      sh_size rs' = sh_size rs /\
+      (forall x, nth_optN syms' (re_symbol (retarget_entry log x)) = nth_optN syms (re_symbol x)) /\
+      (forall x, re_offset (retarget_entry log x) = re_offset x /\ re_type (retarget_entry log x) = re_type x /\
+                 re_addend (retarget_entry log x) = re_addend x).
+Proof. exact arrange_then_swaps. Qed.
+Print Assumptions C10_relocations_follow_their_symbols.
 
 (* non-vacuity: null, global, local, weak, local *)
 Definition ex_syms : list sym :=
@@ -55,4 +90,25 @@ Example C10_example :
     Ok (Some (tb [mkSym 0 0 0 0 0 0; mkSym 5 32 4 2 0 1; mkSym 13 64 8 1 0 1; mkSym 9 48 0 33 0 2; mkSym 1 16 4 18 0 1]),
         3, [(1, 2); (2, 4)]) /\
   retarget [(1, 2); (2, 4)] 1 = 4 /\ retarget [(1, 2); (2, 4)] 4 = 2 /\ retarget [(1, 2); (2, 4)] 3 = 3.
+Proof. vm_compute. repeat split; reflexivity. Qed.
+
+(* non-vacuity of the composed statement: an object with the table above (ELF64 LSB) and a RELA table whose
+   entries refer to symbols 1, 4, 2, 3; after arranging and applying the log they refer to 4, 2, 1, 3 —
+   the positions the same symbols have in the arranged table *)
+Example C10_relocations_example :
+  let symtab := with_entsize (with_type (set_data true (new_section C64) (concat (map (enc_sym C64 LSB) ex_syms))) SHT_SYMTAB) 24 in
+  let mk := mkRelEntry in
+  let es := [mk 0 1 1 0; mk 8 4 1 0; mk 16 2 2 5; mk 24 3 1 0] in
+  let rela := with_entsize (with_type (set_data true (new_section C64) (concat (map (rel_enc C64 LSB true) es))) SHT_RELA) 24 in
+  let el := with_secs (with_hdr (empty_elfio false) (Some (new_header C64 LSB))) [symtab; rela] in
+  match arrange_local_symbols (fun _ => 0) el 0 with
+  | Ok (el2, r, log) =>
+      r = 3 /\ log = [(1, 2); (2, 4)] /\
+      match apply_log (fun _ => 0) 1 log (Ok el2) with
+      | Ok el3 => option_map contents (get_sec el3 1) =
+                  Some (concat (map (rel_enc C64 LSB true) [mk 0 4 1 0; mk 8 2 1 0; mk 16 1 2 5; mk 24 3 1 0]))
+      | Fault _ => False
+      end
+  | Fault _ => False
+  end.
 Proof. vm_compute. repeat split; reflexivity. Qed.
